@@ -312,13 +312,53 @@ theorem closedB_universe (bs : Builtins) (π : List Name) (inp : Inputs) (g : Op
     refine Or.inl (Or.inl (Or.inr ?_))
     exact List.mem_flatMap.mpr ⟨(f, t), lookup_mem f bs t hl, hc⟩
 
+theorem filter_true {α : Type} (x : Option α) : x.filter (fun _ => true) = x := by
+  cases x <;> rfl
+
+theorem filter_bind_parseBool (x : Option String) :
+    (x.filter (fun v => (parseBool v).isSome)).bind parseBool = x.bind parseBool := by
+  cases x with
+  | none => rfl
+  | some v =>
+    cases h : parseBool v with
+    | none => simp [Option.filter, h]
+    | some b => simp [Option.filter, h]
+
+/-- The `String` getter on a `[delta "f"]` section: the file only. -/
+theorem get_section (g : GitCfg) (f k : Name) :
+    g.get (some f) k =
+      if g.enabled then
+        (match lookup f g.file.sections with | some sct => lookup k sct | none => none)
+      else none := by
+  unfold GitCfg.get GitCfg.getT
+  by_cases he : g.enabled
+  · simp only [he, ↓reduceIte]
+    cases lookup f g.file.sections with
+    | none => rfl
+    | some sct => exact filter_true _
+  · simp [he]
+
+theorem getBool_section (g : GitCfg) (f k : Name) :
+    g.getBool (some f) k =
+      if g.enabled then
+        (match lookup f g.file.sections with | some sct => (lookup k sct).bind parseBool | none => none)
+      else none := by
+  unfold GitCfg.getBool GitCfg.getT
+  by_cases he : g.enabled
+  · simp only [he, ↓reduceIte]
+    cases lookup f g.file.sections with
+    | none => rfl
+    | some sct => exact filter_bind_parseBool _
+  · simp [he]
+
 theorem closedR_universe (bs : Builtins) (π : List Name) (inp : Inputs) (g : GitCfg) :
     ClosedR g (nameUniverse bs π inp (some g)) := by
   constructor
   intro f c hc
   simp only [nameUniverse, List.mem_append]
   refine Or.inr (Or.inr ?_)
-  unfold secFeatures GitCfg.get at hc
+  unfold secFeatures at hc
+  rw [get_section] at hc
   by_cases he : g.enabled
   · simp only [he, ↓reduceIte] at hc ⊢
     cases hs : lookup f g.file.sections with
